@@ -169,8 +169,11 @@ Definition check (c : c04case) : list nat :=
       let j := reorder order (join accepted) in
       (if list_eqb kv_eqb (to_kv j) wire then [] else [1%nat]) ++
       (if opt_md_eqb (to_md wire) got then [] else [1%nat]) ++
+      (* judged in the order in which the joined map was emitted: keys that differ only by
+         letter case are concatenated in that order *)
       (match got with
-       | Some g => if spec_same (join accepted) g then [] else [2%nat]
+       | Some g => if spec_same j g && Nat.eqb (length j) (length (filter (fun e => match snd e with [] => false | _ => true end) (join accepted)))
+                   then [] else [2%nat]
        | None => [2%nat]
        end) ++
       (if later then [3%nat] else [])
